@@ -1422,6 +1422,7 @@ func Run(c *core.Ctx) {
 	}
 	if c.Property == "C04" {
 		runLoad(c, c.Pick(24, 400))
+		runRealServer(c)
 	}
 	if c.Property == "C08" {
 		runRetained(c)
